@@ -4,7 +4,7 @@ import json
 from harness import common, framegen, rt, sweep, gen_tables
 
 LEVEL = 'proof'
-C01_PREDICATES = ('composed-not-accepted', 'composed-not-consumed', 'roundtrip-unequal')
+C01_PREDICATES = ('compose-of-parsed-fails', 'composed-not-accepted', 'composed-not-consumed', 'roundtrip-unequal')
 
 
 def family(name):
